@@ -382,7 +382,7 @@ func checkC08(c *chk.Ctx) {
 	}
 	tsCallOp := func(p *prepared, call int, canned map[string]any) map[string]any {
 		op := map[string]any{"op": "tscall", "case": p.id, "call": call, "module": tsC[p.sh.pkg], "service": p.sh.svc, "rpc": p.sh.meth,
-			"req": p.reqJS, "clientOpts": p.tsCO, "callOpts": p.tsCall}
+			"req": p.reqJS, "clientOpts": p.tsCO, "callOpts": p.tsCall, "sibling": true}
 		if canned != nil {
 			op["canned"] = canned
 		}
